@@ -148,6 +148,23 @@ impl Scenario for C17 {
             spec.ops = gen_output_ops(rng, kind, 8).into_iter().map(|o| if let Op::Fill(n) = o { Op::Fill(n % 41) } else { o }).collect();
             spec.clock = Some(gen_plain_clock(rng, 400));
             spec.clock2 = Some(gen_plain_clock(rng, 400));
+            // one of the twins sometimes collects a crafted value (zero half / zero): "is the pool
+            // still empty" style diagnostics collide with such values
+            if rng.chance(1, 6) {
+                let r = rng.range(1, 3) as usize;
+                let mask = *rng.pick(&[crate::craft::MASK_ALL, crate::craft::MASK_ALL, crate::craft::MASK_HI, crate::craft::MASK_LO]);
+                if let Some(d) = crate::craft::solve_deltas(rng, r + 1, mask) {
+                    let mut readings = crate::craft::crafted_prefix(rng, &d);
+                    let last = *readings.last().unwrap();
+                    let tail = gen_plain_clock(rng, 400);
+                    let first = tail.readings.first().copied().unwrap_or(0);
+                    readings.extend(tail.readings.iter().map(|x| last.wrapping_add(x.wrapping_sub(first)).wrapping_add(97)));
+                    spec.clock = Some(crate::seams::clock::ClockSpec { readings, tail_key: tail.tail_key, fork_skews: vec![] });
+                    spec.rounds = Some(r as u8);
+                    spec.ops.insert(0, Op::U64);
+                    spec.variant = "gen_crafted_value".into();
+                }
+            }
         } else {
             spec.seed = Some(gen_seed(rng, kind));
             spec.seed2 = Some(gen_seed(rng, kind));
